@@ -439,6 +439,13 @@ class Interp:
         raise Unsupported(f"raise of {v!r}")
 
     def st_If(self, st, env):
+        if _only_logging(st.body) and _only_logging(st.orelse):
+            # logging is dropped by the extraction (DESIGN 3.2): no need to split the path on its condition
+            if not _is_pure_expr(st.test) and not all(isinstance(n, (ast.expr_context, ast.Name, ast.Attribute, ast.Compare, ast.BoolOp,
+                                                                      ast.UnaryOp, ast.Constant, ast.cmpop, ast.boolop, ast.unaryop))
+                                                       for n in ast.walk(st.test)):
+                self.eval(st.test, env)
+            return
         if self.test(self.eval(st.test, env)):
             self.exec_block(st.body, env)
         else:
@@ -1235,6 +1242,14 @@ class Interp:
                 return obj.name
         if isinstance(obj, Namespace):
             return obj.get(self, name, node)
+        if isinstance(obj, (str, Opaque)) and name in ("join", "format", "strip", "lower", "upper", "replace", "rstrip", "lstrip"):
+            # string building: content abstracted (only which values are mentioned is kept)
+            def strop(it, node2, *a, obj=obj, **k):
+                ms = list(getattr(obj, "mentions", ()))
+                for x in a:
+                    ms.extend(getattr(x, "mentions", ()))
+                return Opaque("str", ms)
+            return Builtin(f"str.{name}", strop)
         if isinstance(obj, ExcValue):
             if name == "args":
                 return tuple(obj.args)
@@ -1640,6 +1655,20 @@ def _tobool(x):
     if isinstance(x, bool):
         return x
     return x
+
+
+def _only_logging(stmts):
+    for x in stmts:
+        if isinstance(x, ast.Pass):
+            continue
+        if isinstance(x, ast.Expr) and isinstance(x.value, ast.Constant):
+            continue
+        if isinstance(x, ast.Expr) and isinstance(x.value, ast.Call) and isinstance(x.value.func, ast.Attribute) \
+                and isinstance(x.value.func.value, ast.Name) and x.value.func.value.id in ("logger", "warnings") \
+                and x.value.func.attr in ("warning", "info", "debug", "error", "warn", "exception"):
+            continue
+        return False
+    return True
 
 
 def _is_pure_expr(e):
